@@ -7,6 +7,8 @@
 use crate::common::*;
 use sudachi::dic::character_category::{CharacterCategory, Error as CcError};
 use sudachi::error::SudachiError;
+use sudachi::dic::grammar::Grammar;
+use sudachi::input_text::{InputBuffer, InputTextIndex};
 
 const NAMES: &[(&str, u32)] = &[
     ("DEFAULT", 1), ("SPACE", 2), ("KANJI", 4), ("SYMBOL", 8), ("NUMERIC", 16), ("ALPHA", 32),
@@ -429,6 +431,218 @@ fn iter_variant() -> &'static str {
     }
 }
 
+/// a character of another plane with the same low 16 bits of the code point (U+0041 / U+20041, U+3042 / U+23042)
+fn alias16(rng: &mut Rng, x: u32) -> Option<u32> {
+    for _ in 0..8 {
+        let plane = rng.below(17) as u32;
+        let y = (x & 0xffff) | (plane << 16);
+        if y != x && is_scalar(y) { return Some(y); }
+    }
+    None
+}
+
+/// a character with the same low 8 bits but different low 16 bits
+fn alias8(rng: &mut Rng, x: u32) -> Option<u32> {
+    for _ in 0..8 {
+        let y = if rng.chance(1, 2) { x ^ ((1 + rng.below(255) as u32) << 8) } else { (x & 0xff) | ((rng.below(0x10ff) as u32) << 8) };
+        if y & 0xffff != x & 0xffff && is_scalar(y) { return Some(y); }
+    }
+    None
+}
+
+/// texts made of the probe characters of one definition file: what ONE `InputBuffer::build` call sees together
+fn gen_texts(rng: &mut Rng, probes: &[u32], tags: &mut Vec<&'static str>) -> Vec<Vec<u32>> {
+    let mut texts: Vec<Vec<u32>> = vec![];
+    // every probe once, in code-point order and back
+    let mut all: Vec<u32> = probes.to_vec();
+    if all.len() > 400 { let at = rng.below(all.len() - 400); all = all[at..at + 400].to_vec(); }
+    if rng.chance(1, 2) { all.reverse(); }
+    texts.push(all);
+    let pick = |rng: &mut Rng| probes[rng.below(probes.len())];
+    // pairs with equal low 16 bits, next to each other: BMP first / astral first
+    let mut fwd = vec![];
+    let mut bwd = vec![];
+    for _ in 0..rng.range(2, 12) {
+        let x = pick(rng);
+        if let Some(y) = alias16(rng, x) { fwd.push(x); fwd.push(y); bwd.push(y); bwd.push(x); }
+    }
+    if !fwd.is_empty() { tags.push("text:alias16-adjacent"); texts.push(fwd); texts.push(bwd); }
+    // a text of exactly two characters: the pair alone in a build call
+    for _ in 0..2 {
+        let x = pick(rng);
+        if let Some(y) = alias16(rng, x) {
+            tags.push("text:alias16-alone");
+            texts.push(if rng.chance(1, 2) { vec![x, y] } else { vec![y, x] });
+        }
+    }
+    // the alias at a distance, the first character repeated after it
+    {
+        let x = pick(rng);
+        if let Some(y) = alias16(rng, x) {
+            tags.push("text:alias16-distance");
+            let mut t = vec![x];
+            for _ in 0..rng.range(1, 20) { t.push(pick(rng)); }
+            t.push(y);
+            for _ in 0..rng.below(4) { t.push(pick(rng)); }
+            t.push(x);
+            t.push(y);
+            texts.push(t);
+        }
+    }
+    // equal low 8 bits: x z x z, and x z y (y = low-16 alias of x)
+    {
+        let mut t = vec![];
+        for _ in 0..rng.range(1, 6) {
+            let x = pick(rng);
+            if let Some(z) = alias8(rng, x) {
+                t.extend_from_slice(&[x, z, x, z]);
+                if let Some(y) = alias16(rng, x) { t.extend_from_slice(&[x, z, y]); }
+            }
+        }
+        if !t.is_empty() { tags.push("text:alias8"); texts.push(t); }
+    }
+    // one character many times; a single character; the empty text
+    { let x = pick(rng); tags.push("text:repeat"); texts.push(vec![x; rng.range(2, 9)]); }
+    texts.push(vec![pick(rng)]);
+    if rng.chance(1, 4) { tags.push("text:empty"); texts.push(vec![]); }
+    // random mix of probes and their aliases in all planes, with repetitions
+    {
+        let mut pool: Vec<u32> = vec![];
+        for _ in 0..rng.range(2, 10) {
+            let x = pick(rng);
+            pool.push(x);
+            if let Some(y) = alias16(rng, x) { pool.push(y); }
+            if rng.chance(1, 2) { if let Some(y) = alias16(rng, x) { pool.push(y); } }
+            if rng.chance(1, 3) { if let Some(z) = alias8(rng, x) { pool.push(z); } }
+        }
+        let n = rng.range(2, 48);
+        let t: Vec<u32> = (0..n).map(|_| pool[rng.below(pool.len())]).collect();
+        tags.push("text:mix");
+        texts.push(t);
+    }
+    texts
+}
+
+/// `Grammar` without POS and with a 0x0 matrix: only its character classes are used by `InputBuffer::build`
+const EMPTY_GRAMMAR: &[u8] = &[0, 0, 0, 0, 0, 0];
+
+/// classes observed THROUGH A BUILT `InputBuffer` (the only consumer of the classes in the analyser): every text is
+/// one `build` call; `cat_at_char` at every position, `cat_of_range` on some ranges.  `lines` = the declared lines
+/// (`None`: nothing declared, correspondence only).
+fn observe_buffer(run: &mut Run, idx: usize, def: &[u8], cc: CharacterCategory, probes: &[u32], lines: Option<&[DefLine]>) {
+    let mut rng = Rng::for_case(run.opts.seed ^ 0xB0FF_E2C1_7C17, idx);
+    let mut tags: Vec<&'static str> = vec![];
+    let texts = gen_texts(&mut rng, probes, &mut tags);
+    for t in &tags { run.bump(t); }
+    let mut queries: Vec<(usize, usize, usize)> = vec![];
+    for (ti, t) in texts.iter().enumerate() {
+        if t.is_empty() { continue; }
+        let i = rng.below(t.len());
+        queries.push((ti, i, i + 1));
+        if t.len() >= 2 && rng.chance(1, 2) { let s = rng.below(t.len() - 1); queries.push((ti, s, s + 2)); }
+        if rng.chance(1, 2) { let s = rng.below(t.len()); let e = s + 1 + rng.below(t.len() - s); queries.push((ti, s, e)); }
+        if rng.chance(1, 6) { queries.push((ti, 0, t.len())); }
+    }
+    let payload = format!("def={} texts={} rng={}", hex(def),
+        join(texts.iter().map(|t| join(t.iter(), ",")), ";"),
+        join(queries.iter().map(|(t, s, e)| format!("{}:{}:{}", t, s, e)), ","));
+    let grammar = catch(move || {
+        let mut g = Grammar::parse(EMPTY_GRAMMAR, 0).expect("empty grammar");
+        g.set_character_category(cc);
+        g
+    });
+    let grammar = match grammar { Ok(g) => g, Err(p) => panic!("harness: cannot make an empty Grammar: {}", p) };
+    // one InputBuffer per text; a buffer is also recycled (reset + build) for every other text, as the tokenizer does
+    let mut recycled = InputBuffer::new();
+    let mut seen: Vec<Option<Vec<u32>>> = vec![];
+    for (ti, t) in texts.iter().enumerate() {
+        let s: String = t.iter().map(|&x| char::from_u32(x).unwrap()).collect();
+        let g = &grammar;
+        let rec = &mut recycled;
+        let r = catch(move || {
+            let built;
+            let buf: &InputBuffer = if ti % 2 == 1 {
+                rec.reset().push_str(&s);
+                rec.start_build().expect("start_build");
+                rec.build(g).expect("build");
+                rec
+            } else {
+                let mut b = InputBuffer::from(s.as_str());
+                b.build(g).expect("build");
+                built = b;
+                &built
+            };
+            (0..buf.current_chars().len()).map(|i| buf.cat_at_char(i).bits()).collect::<Vec<u32>>()
+        });
+        match r {
+            Ok(v) => seen.push(Some(v)),
+            Err(_) => { seen.push(None); recycled = InputBuffer::new(); }
+        }
+    }
+    // range queries on freshly built buffers
+    let mut rseen: Vec<Option<u32>> = vec![];
+    for (ti, s, e) in &queries {
+        let text: String = texts[*ti].iter().map(|&x| char::from_u32(x).unwrap()).collect();
+        let g = &grammar;
+        let (s, e) = (*s, *e);
+        rseen.push(catch(move || {
+            let mut b = InputBuffer::from(text.as_str());
+            b.build(g).expect("build");
+            b.cat_of_range(s..e).bits()
+        }).ok());
+    }
+    let ans = format!("ok cats={} rng={}",
+        join(seen.iter().map(|o| match o { Some(v) => join(v.iter(), ","), None => "PANIC".to_string() }), ";"),
+        join(rseen.iter().map(|o| match o { Some(v) => v.to_string(), None => "PANIC".to_string() }), ","));
+    // non-trivial: a text holds two characters with equal low 16 bits to which the definition gives different classes
+    let mut differs = false;
+    if let Some(lines) = lines {
+        for t in &texts {
+            for (i, &a) in t.iter().enumerate() {
+                if t[..i].iter().any(|&b| b != a && b & 0xffff == a & 0xffff && naive(lines, a) != naive(lines, b)) { differs = true; }
+            }
+        }
+    }
+    if differs { run.bump("buffer:alias16-classes-differ"); }
+    run.bump_by("buffer:builds", texts.len() as u64);
+    run.bump_by("buffer:characters", texts.iter().map(|t| t.len() as u64).sum());
+    run.case(idx, "buffer", &payload, &ans, differs);
+    let lines = match lines { Some(l) => l, None => return };
+    // oracle 3: the classes reported for the character at position i of a built buffer = union of the covering lines
+    // (or DEFAULT), whatever else the text contains
+    'texts: for (ti, t) in texts.iter().enumerate() {
+        match &seen[ti] {
+            None => { run.fail(idx, "c17:buf:panic", &format!("InputBuffer::build / cat_at_char panics on text #{} {:x?}", ti, t)); break 'texts; }
+            Some(v) => {
+                if v.len() != t.len() {
+                    run.fail(idx, "c17:buf:length", &format!("text #{} has {} characters, the built buffer {}", ti, t.len(), v.len()));
+                    break 'texts;
+                }
+                for (i, &x) in t.iter().enumerate() {
+                    let want = naive(lines, x);
+                    if v[i] != want {
+                        run.fail(idx, &format!("c17:buf:at:{:x}", x), &format!("text #{} {:x?}: character #{} U+{:04X} is reported by cat_at_char with {:#x}, union of covering lines {:#x} (get_category_types alone: {:#x})",
+                            ti, t, i, x, v[i], want, grammar.character_category.get_category_types(char::from_u32(x).unwrap()).bits()));
+                        break 'texts;
+                    }
+                }
+            }
+        }
+    }
+    // cat_of_range = the classes common to the characters of the range (for one character: its classes)
+    for (k, (ti, s, e)) in queries.iter().enumerate() {
+        let want = texts[*ti][*s..*e].iter().fold(0xffff_ffffu32, |a, &x| a & naive(lines, x));
+        match rseen[k] {
+            None => { run.fail(idx, "c17:buf:range:panic", &format!("cat_of_range({}..{}) panics on text #{} {:x?}", s, e, ti, texts[*ti])); break; }
+            Some(got) if got != want => {
+                run.fail(idx, &format!("c17:buf:range:{}", if e - s == 1 { "one" } else { "many" }), &format!("text #{} {:x?}: cat_of_range({}..{}) = {:#x}, classes common to the unions of the covering lines {:#x}", ti, texts[*ti], s, e, got, want));
+                break;
+            }
+            _ => {}
+        }
+    }
+}
+
 pub fn run(run: &mut Run) {
     run.rule = "char.def files built from declared forms: per line a range form (single, pair, 0x padding/case/8 and 11 digits/'+'/doubled 0x, \
 second field without 0x, third '..' part, long ranges through the surrogate gap and to U+10FFFE; malformed: empty fields, '...', '-', bad digit, \
@@ -436,7 +650,10 @@ second field without 0x, third '..' part, long ranges through the surrogate gap 
 ALL, empty list + comment; malformed: unknown/lower-case names, '|', empty hex, overflow), separators from all White_Space code points, non-white look-alikes, \
 comments with 2/3/4-byte characters, bytes that are not UTF-8, LF/CRLF/CRCRLF/no final newline, 0..48 lines, adjacent chains; 40 directed files first \
 (U+00FF/0100, U+FFFF/10000, U+10FFFE/10FFFF, U+D7FF/E000, begin 0, BOM, CR-only, first-error order); non-trivial = loads and two lines overlap or touch; \
-distinct by file text + probes".into();
+distinct by file text + probes. Op buffer (every file that loads): the classes THROUGH A BUILT InputBuffer - Grammar with the loaded table, one build call per text \
+(fresh and recycled buffers), texts made of the probes of the file: all probes, pairs with equal low 16 bits in different planes (U+0041/U+20041) adjacent in both orders, \
+alone, at a distance and repeated, equal low 8 bits (x z x z), one character repeated, one character, the empty text, random mixes of probes and aliases; cat_at_char at every \
+position, cat_of_range on one-character and longer ranges; non-trivial = a text with two characters of equal low 16 bits and different declared classes".into();
     let n = run.opts.count;
     let itv = iter_variant();
     run.extra.insert("iter_variant".into(), serde_json::json!(itv));
@@ -510,6 +727,7 @@ distinct by file text + probes".into();
                 if !loads_expected {
                     // a refused line was accepted: nothing declared to compare with; the correspondence run reports it
                     run.bump("generator-expected-error-but-loaded");
+                    observe_buffer(run, idx, &text, cc, &probes, None);
                     continue;
                 }
                 // oracle 1: naive scan of the declared lines
@@ -562,6 +780,7 @@ distinct by file text + probes".into();
                         if let Some((k, w)) = bad { run.fail(idx, &k, &w); }
                     }
                 }
+                observe_buffer(run, idx, &text, cc, &probes, Some(&lines));
             }
         }
     }
